@@ -9,7 +9,7 @@ def run(ctx):
     quick = ctx.tier == "quick"
     # ------------------------------------------------------------ numeric identifiers
     ncfgs = ["MC_ZnNum_all.cfg", "MC_ZnNum_wmethod.cfg"] if quick else ["MC_ZnNum_all6.cfg", "MC_ZnNum_wmethod.cfg"]
-    lcfgs = ["all3", "kw5", "kw2_4", "op4", "quote5"] if quick else ["all4", "kw", "kw2", "op", "quote"]
+    lcfgs = ["all3", "kw5", "kw2_4", "op4", "quote5", "kwatoms"] if quick else ["all4", "kw", "kw2", "op", "quote", "kwatoms"]
     def runtlc(job):
         mod, cfg = job
         return job, common.tlc(ctx, mod, cfg, workers=4, timeout=3000)
@@ -101,10 +101,10 @@ def run(ctx):
                     "minimal specification DFA (complete for implementations with up to two extra states; W's separation of all state pairs and the access table are "
                     "checked by TLC): classification number/name/reject by exec.MatchIDType, value bit-exact against the correctly rounded double of the denoted decimal; "
                     "tokenisation: all strings <= %d over the full 27-symbol alphabet and <= %s over four reduced alphabets (keywords, keywords2, operators/comments, "
-                    "quotes/back-ticks), token kinds and spans of zh.NextToken vs the scanner machine; identifier alphabet: IdInRange over all 0x110000 code points, "
+                    "quotes/back-ticks), all strings <= 3 over {letter, blank, each of the 34 keywords of the manual as an atom} (every keyword cut out after / before / between names and other keywords), token kinds and spans of zh.NextToken vs the scanner machine; identifier alphabet: IdInRange over all 0x110000 code points, "
                     "run-length encoded, validated by TLC against the normal form of the interval table extracted from id_range.go"
                     % (5 if quick else 6, 3 if quick else 4, "4-5" if quick else "5-6"),
                numeric_vectors=len(nv), numeric_classes=cls, lex_vectors=len(lv), lex_soft_runs=nsoft, idrange_rows=len(rows))
     return cov, ["decimal -> nearest double is computed with math/big (independent of strconv, which the code uses)",
                  "contexts on which the manual is silent (quote/back-tick glued to a name, back-tick escapes inside literals) are checked for totality only",
-                 "keyword table restricted to the 11 keywords spellable in the symbol alphabet"]
+                 "glyph-level strings use the 11 keywords spellable in the 14-glyph alphabet; every one of the 34 keywords is exercised as an atom between letters, blanks and other keywords (kwatoms)"]
